@@ -826,7 +826,71 @@ class Unifier:
             self.seq(w.orelse, r.then)
             self.seq(w.then, r.orelse)
         else:
-            self.bad("format", w, r, f"writer branches on `{canon(w.cond, self.ctx)}`, reader on `{canon(self.rsub(r.cond), self.ctx)}`")
+            tt = self.format_truth(w.cond, self.rsub(r.cond))
+            if tt == "same":
+                self.ok("format", w, r, "branch conditions select the same formats among those both sides accept")
+                self.seq(w.then, r.then)
+                self.seq(w.orelse, r.orelse)
+            elif tt == "negated":
+                self.ok("format", w, r, "branch conditions select complementary formats (branches exchanged)")
+                self.seq(w.orelse, r.then)
+                self.seq(w.then, r.orelse)
+            else:
+                self.bad("format", w, r, f"writer branches on `{canon(w.cond, self.ctx)}`, reader on `{canon(self.rsub(r.cond), self.ctx)}`")
+
+    def format_domain(self):
+        """(enum class, formats neither side refuses) - cached"""
+        if not hasattr(self, "_fmt_dom"):
+            from .rules.c01 import enum_of_unit, fails_under
+            k = enum_of_unit(self.prog, self.u)
+            dom = None
+            if k is not None:
+                members = self.prog.enum_members(k)
+                W = [t for t in normalise(self.u.wterms, "w") if isinstance(t, GuardFail)]
+                R = [t for t in normalise(self.u.rterms, "r") if isinstance(t, GuardFail)]
+                dom = [m for m in members if not fails_under(W, m, k.name, "w") and not fails_under(R, m, k.name, "r")]
+            self._fmt_dom = (k, dom)
+        return self._fmt_dom
+
+    def format_canon(self, cond):
+        """canonical text of a condition over the block format: the accepted formats it selects; None when it is no such condition"""
+        from .rules.c01 import eval_cond
+        k, dom = self.format_domain()
+        if k is None or not dom:
+            return None
+        sel = []
+        for m in dom:
+            v = eval_cond(cond, m, k.name)
+            if v is None:
+                return None
+            if v:
+                sel.append(m)
+        return "self.format in {" + ", ".join(sorted(sel)) + "}"
+
+    def format_truth(self, wc, rc):
+        """Compare two branch conditions over the block format as truth tables on the formats that neither side refuses
+        (the refusals are the unit's own top-level format guards)."""
+        from .rules.c01 import enum_of_unit, eval_cond, fails_under
+        k = enum_of_unit(self.prog, self.u)
+        if k is None:
+            return None
+        members = self.prog.enum_members(k)
+        W = normalise(self.u.wterms, "w")
+        R = normalise(self.u.rterms, "r")
+        dom = [m for m in members if not fails_under([t for t in W if isinstance(t, GuardFail)], m, k.name, "w")
+               and not fails_under([t for t in R if isinstance(t, GuardFail)], m, k.name, "r")]
+        if not dom:
+            return None
+        same = neg = True
+        for m in dom:
+            a, b = eval_cond(wc, m, k.name), eval_cond(rc, m, k.name)
+            if a is None or b is None:
+                return None
+            if a != b:
+                same = False
+            if a == b:
+                neg = False
+        return "same" if same else ("negated" if neg else None)
 
     def poly_writer(self, w, r: Alt):
         """Reader dispatches on format, writer is polymorphic (dynamic dispatch on the element class)."""
